@@ -141,7 +141,7 @@ class LoadTracer(PagingTracer):
             pc = registers[24]
             progress = 0
             edges = self.edges
-            tape_length = edges[-1] // 1000
+            tape_length = edges[-1] // 1000 or 1
             max_index = self.max_index
             tstates = registers[25]
             state = self.state
